@@ -304,6 +304,7 @@ def _clip(s, n=600):
 
 # ------------------------------------------------------------------ pool
 _CASES = []
+_SELFTEST = {}
 
 
 def _worker(args):
@@ -444,6 +445,14 @@ def run_property(pid, tier='quick', seed=0, only=None, jobs=None, verbose=False)
     warmup()
     mod = importlib.import_module('pverif.props.%s' % pid.lower())
     cases = mod.cases(tier)
+    global _SELFTEST
+    _SELFTEST = {}
+    if 'interp' in getattr(mod, 'META', {}).get('stubs', ''):
+        try:
+            _SELFTEST['interp_model_vs_numpy_points'] = sym.selftest_interp(seed)
+        except HarnessError as e:
+            print('HARNESS-ERROR stub self-test: %s' % e)
+            return EXIT_HARNESS
     if only:
         cases = [c for c in cases if re.search(only, c.name)]
     global _CASES
@@ -526,7 +535,7 @@ def finish(pid, tier, seed, mod, results, wall):
             stub_calls={k: sum(r['stub_calls'].get(k, 0) for r in results) for k in set().union(*[r['stub_calls'].keys() for r in results])} if results else {},
             functions_encoded=source_hashes(meta.get('functions', [])),
             bounds=meta.get('bounds', ''), outside=meta.get('outside', ''),
-            stubs=meta.get('stubs', ''),
+            stubs=meta.get('stubs', ''), stub_selftests=dict(_SELFTEST),
             per_case=[dict(case=r['case'], paths=r['paths'], complete=r['complete'], claims=r['claims'],
                            discharged=r['discharged'], wall_s=round(r.get('wall_s', 0), 2)) for r in results][:400],
             harness_errors=harness_errors[:10],
